@@ -1,7 +1,8 @@
 /-
 Model of the multi-hop receive handlers of `flexstack.geonet.router.Router`
 (`gn_data_indicate_{tsb,gbc,gac,guc,ls_request,ls_reply}`, `gn_data_forward_gbc`, `gn_area_cbf_forwarding`,
-`_cbf_timeout`) over DECODED packets.  The location table is the model of `LocT.lean`.
+`_cbf_timeout`) over DECODED packets, plus the requester side of the Location Service as far as the receive path touches it
+(`gn_ls_request`, completion + flush of the LS packet buffer on an LS reply).  The location table is the model of `LocT.lean`.
 
 Opaque Boolean inputs (`Env`), supplied by the harness from the real run: geometry (F ≥ 0 at ego / at the sender,
 area size gate), PDR gate, outcome of greedy forwarding, CBF timeout.  Their float maths is not part of C06.
@@ -66,12 +67,21 @@ inductive Act
   | cancel (key : Key)
   /-- LS reply originated for a request that sought this station -/
   | reply (to : Addr)
+  /-- LS request for `a` originated (`_send_ls_request_packet`) and the LS retransmit timer started -/
+  | lsSend (a : Addr)
+  /-- a GUC request that waited for the Location Service of `a` re-submitted to the GUC source operations
+  (`gn_data_request_guc`; whether a frame goes out is decided there: neighbours, SCF, greedy forwarding - not modelled) -/
+  | origGuc (a : Addr)
 deriving DecidableEq, Repr
 
 structure RSt where
   t : Table := []
   /-- CBF buffer: key → re-encoded packet waiting for its timer -/
   buf : List (Key × Pkt) := []
+  /-- `_ls_retransmit_counters` / `_ls_timers`: sought addresses with a Location Service in progress -/
+  lsCnt : List Addr := []
+  /-- `_ls_packet_buffers`: sought address ↦ number of GUC requests waiting for the LS reply -/
+  lsBuf : List (Addr × Nat) := []
 deriving Repr
 
 def bufHas (b : List (Key × Pkt)) (k : Key) : Bool := b.any (fun x => x.1 == k)
@@ -107,6 +117,50 @@ def forwardGbc (c : RCfg) (s : RSt) (p : Pkt) (env : Env) : RSt × List Act :=
     else if env.senderInside then (s, [])
     else if env.greedy then (s, [.send q]) else (s, [])
   else (s, [.send q])
+
+/-! ### Location Service state at the requester (§10.3.7.1) -/
+
+def lsBufGet (b : List (Addr × Nat)) (a : Addr) : Option Nat := (b.find? (fun x => x.1 == a)).map (·.2)
+def lsBufDel (b : List (Addr × Nat)) (a : Addr) : List (Addr × Nat) := b.filter (fun x => !(x.1 == a))
+def lsBufSet (b : List (Addr × Nat)) (a : Addr) (n : Nat) : List (Addr × Nat) := (a, n) :: lsBufDel b a
+
+/-- `entry.ls_pending = False` for an existing entry -/
+def clearLs (t : Table) (a : Addr) : Table :=
+  match lookup t a with
+  | some e => insert t a { e with lsPending := false }
+  | none => t
+
+/-- `(entry is not None and entry.ls_pending) or sought_gn_addr in self._ls_retransmit_counters` -/
+def lsPend (s : RSt) (a : Addr) : Bool :=
+  (match lookup s.t a with | some e => e.lsPending | none => false) || s.lsCnt.contains a
+
+/-- `gn_ls_request(a, buffered_request)`: an LS already in progress only queues the request; otherwise placeholder entry,
+LS request packet, retransmit timer -/
+def lsRequest (s : RSt) (a : Addr) (req : Bool) : RSt × List Act :=
+  if lsPend s a then
+    ({ s with t := ensure s.t a,
+              lsBuf := if req then lsBufSet s.lsBuf a ((lsBufGet s.lsBuf a).getD 0 + 1) else s.lsBuf }, [])
+  else
+    ({ s with t := ensure s.t a, lsBuf := lsBufSet s.lsBuf a (if req then 1 else 0), lsCnt := a :: s.lsCnt },
+      [.lsSend a])
+
+/-- the flush of the LS packet buffer: `gn_data_request_guc(req)` for each of the `n` buffered requests, as far as the
+modelled state is concerned - a request whose destination has no entry (it expired at once) or a pending LS goes back to the
+Location Service, otherwise the GUC source operations run -/
+def flushReqs (s : RSt) (a : Addr) : Nat → RSt × List Act
+  | 0 => (s, [])
+  | n + 1 =>
+    let r := match lookup s.t a with
+      | some e => if e.lsPending then lsRequest s a true else (s, [.origGuc a])
+      | none => lsRequest s a true
+    let r2 := flushReqs r.1 a n
+    (r2.1, r.2 ++ r2.2)
+
+/-- §10.3.7.1.4, LS reply received by the requester: timer, counter and buffer of the sought address are dropped,
+`ls_pending` of its entry is cleared, the buffered requests are re-submitted -/
+def lsComplete (s : RSt) (a : Addr) : RSt × List Act :=
+  let n := (lsBufGet s.lsBuf a).getD 0
+  flushReqs { s with t := clearLs s.t a, lsCnt := s.lsCnt.filter (fun x => !(x == a)), lsBuf := lsBufDel s.lsBuf a } a n
 
 /-- actions of the handler after the location table accepted the packet (`recv … = ok`); `s.t` is the updated table -/
 def handle (c : RCfg) (s : RSt) (p : Pkt) (env : Env) : RSt × List Act :=
@@ -157,10 +211,7 @@ def handle (c : RCfg) (s : RSt) (p : Pkt) (env : Env) : RSt × List Act :=
     else if env.pdrExceeded then (s, [])
     else if p.rhl - 1 > 0 then (s, [.send (fwd p)]) else (s, [])
   | .lsRep =>
-    if mid p.de = me then
-      -- §10.3.7.1.4: LS completed.  The code clears `ls_pending` of the replier's entry here; that entry has just
-      -- received a PV, so the flag no longer influences anything this model observes and is not tracked.
-      (s, [])
+    if mid p.de = me then lsComplete s p.so
     else if env.pdrExceeded then (s, [])
     else
       let q := refreshDE s.t p
@@ -187,11 +238,15 @@ def fire (s : RSt) (k : Key) : RSt × List Act :=
 inductive ROp
   | rx (p : Pkt) (env : Env) (now : Nat)
   | fire (k : Key)
+  /-- the station itself starts (or joins) a Location Service for `a` (`gn_ls_request`), with or without a GUC request
+  to be buffered -/
+  | lsreq (a : Addr) (req : Bool)
 deriving Repr
 
 def rstep (c : RCfg) (s : RSt) : ROp → RSt × List Act
   | .rx p env now => recvR c s p env now
   | .fire k => fire s k
+  | .lsreq a req => lsRequest s a req
 
 /-- run a history; the log keeps the actions of every operation (one list per operation) -/
 def rrun (c : RCfg) : RSt → List ROp → RSt × List (List Act)
